@@ -2,6 +2,7 @@ package main
 
 import (
 	"fmt"
+	"os"
 	"go/token"
 	"go/types"
 	"strings"
@@ -27,18 +28,36 @@ func directCallees(fn *ssa.Function) map[string]bool {
 	return res
 }
 
+// reachesCallee: fn calls the named function directly or through in-package
+// static calls of the given depth (helpers extracted from the anchor).
+func reachesCallee(p *Program, fn *ssa.Function, name string, depth int) bool {
+	dc := directCallees(fn)
+	if dc[name] {
+		return true
+	}
+	if depth == 0 {
+		return false
+	}
+	for k := range dc {
+		if g := p.Func(k); g != nil && g != fn && reachesCallee(p, g, name, depth-1) {
+			return true
+		}
+	}
+	return false
+}
+
 // findCompactionWriter: the function that builds a merged view and rewrites
 // it record by record (calls NewMerged and Iterator.NextRef).
 func findCompactionWriter(p *Program) *ssa.Function {
 	var found []*ssa.Function
 	for _, f := range p.Funcs {
 		dc := directCallees(f)
-		if dc["NewMerged"] && dc["(*Iterator).NextRef"] {
+		if dc["(*Iterator).NextRef"] && dc["(*Writer).AddRef"] && reachesCallee(p, f, "NewMerged", 3) {
 			found = append(found, f)
 		}
 	}
 	if len(found) != 1 {
-		fatalf("unresolved anchor: compaction rewrite function (calls NewMerged and Iterator.NextRef): %d candidates", len(found))
+		fatalf("unresolved anchor: compaction rewrite function (copies Iterator.NextRef into Writer.AddRef over a NewMerged view): %d candidates", len(found))
 	}
 	return found[0]
 }
@@ -112,11 +131,29 @@ func (a *compactAnalysis) rangeBounds(r *Report, p *Program) {
 				continue
 			}
 			for _, m := range listMembers(ev.Args[0]) {
+				if os.Getenv("RSA_DEBUG") == "13" {
+					fmt.Fprintf(os.Stderr, "NewMerged member %s\n", m.key)
+				}
 				if m.Op != "elem" {
 					r.violate("COMPACT-RANGE", funcKey(a.fn)+" / tables handed to NewMerged", p.pos(a.fn.Pos()), "the merged view of the compaction is not built from elements of the stack: "+m.String(), nil)
 					return
 				}
 				idx := m.Args[1]
+				if sub := m.Args[0]; sub.Op == "subslice" && len(sub.Args) == 3 {
+					// stack[first : last+1] handed to a helper that ranges over it
+					lo, hi := sub.Args[1], sub.Args[2]
+					if _, ok := intParams[lo.key]; ok && a.first == nil {
+						a.first = lo
+					}
+					if hi.Op == "bin" && hi.Aux == "+" && len(hi.Args) == 2 {
+						if c, ok := constInt(hi.Args[1]); ok && c == 1 {
+							if _, ok := intParams[hi.Args[0].key]; ok && a.last == nil {
+								a.last = hi.Args[0]
+							}
+						}
+					}
+					continue
+				}
 				for _, ip := range intParams {
 					if s.St.truth(tLt(idx, ip)) == 0 && a.first == nil {
 						a.first = ip
